@@ -5,14 +5,11 @@ import (
 	"encoding/json"
 	"fmt"
 	"os"
-	"path/filepath"
 	"sort"
 	"strings"
 	"testing"
-	"time"
 
 	"honnef.co/go/tools/lintcmd/cache"
-	"pgregory.net/rapid"
 	"verif/harness/internal/ev"
 )
 
@@ -283,235 +280,3 @@ func TestTruncDelete(t *testing.T) {
 		return p.evalFault(c), Replay{Kind: "fault", Fault: &c}
 	})
 }
-
-// ---------------------------------------------------------------------------
-// sub-check 2b: generated sequences of stores, crashes and file faults
-
-type Step struct {
-	Op    string `json:"op"` // put | crash | trunc | remove | agetrim
-	Key   string `json:"key,omitempty"`
-	Ver   int    `json:"ver,omitempty"`
-	Size  int    `json:"size,omitempty"`
-	K     int    `json:"k,omitempty"`     // crash: bytes before the kill (clamped to size-1)
-	Chunk int    `json:"chunk,omitempty"` // crash
-	File  int    `json:"file,omitempty"`  // trunc/remove/agetrim: index into the sorted list of entry files (mod length)
-	Frac  int    `json:"frac,omitempty"`  // trunc: new length = size*frac/1000
-}
-
-type SeqCase struct {
-	Steps []Step `json:"steps"`
-}
-
-var seqKeys = []string{"a", "b", "c"}
-
-func genSeq(t *rapid.T) SeqCase {
-	n := rapid.IntRange(1, 8).Draw(t, "nsteps")
-	var sc SeqCase
-	for i := 0; i < n; i++ {
-		var s Step
-		s.Op = rapid.SampledFrom([]string{"put", "put", "put", "crash", "crash", "crash", "trunc", "trunc", "trunc", "remove", "remove", "agetrim"}).Draw(t, "op")
-		switch s.Op {
-		case "put", "crash":
-			s.Key = rapid.SampledFrom(seqKeys).Draw(t, "key")
-			s.Ver = rapid.IntRange(0, 1).Draw(t, "ver")
-			s.Size = rapid.SampledFrom([]int{0, 1, 2, 100, 5000, 70000}).Draw(t, "size")
-			if s.Op == "crash" {
-				s.K = rapid.IntRange(0, 70000).Draw(t, "k")
-				s.Chunk = rapid.SampledFrom([]int{0, 1, 7, 4096}).Draw(t, "chunk")
-				if s.Chunk == 1 && s.Size > 5000 {
-					s.Chunk = 7
-				}
-			}
-		default:
-			s.File = rapid.IntRange(0, 11).Draw(t, "file")
-			if s.Op == "trunc" {
-				s.Frac = rapid.SampledFrom([]int{0, 1, 250, 500, 750, 990, 999}).Draw(t, "frac")
-			}
-		}
-		sc.Steps = append(sc.Steps, s)
-	}
-	return sc
-}
-
-func evalSeq(sc SeqCase) (res result) {
-	dir, err := newCacheDir()
-	if err != nil {
-		res.infra = err.Error()
-		return
-	}
-	defer os.RemoveAll(dir)
-	return evalSeqIn(dir, sc)
-}
-
-func evalSeqIn(dir string, sc SeqCase) (res result) {
-	for _, s := range sc.Steps {
-		if s.Op == "put" || s.Op == "crash" {
-			trackDir(dir, []string{s.Key}, Content(s.Key, s.Ver, s.Size))
-		}
-	}
-	acceptable := map[string][][]byte{}
-	intact := map[string][]byte{} // key -> content of an entry no fault has touched since it was stored
-	known := map[string]int{}
-	fileOwner := func(path string) []string { // keys whose intact entry uses path
-		var ks []string
-		for k, d := range intact {
-			if indexPath(dir, k) == path || dataPath(dir, d) == path {
-				ks = append(ks, k)
-			}
-		}
-		return ks
-	}
-	var hashParts []string
-	var sb strings.Builder
-	anyDamage := false
-	for i, s := range sc.Steps {
-		desc := fmt.Sprintf("step %d %+v", i, s)
-		switch s.Op {
-		case "put", "crash":
-			data := Content(s.Key, s.Ver, s.Size)
-			if !member(data, acceptable[s.Key]) {
-				acceptable[s.Key] = append(acceptable[s.Key], data)
-			}
-			known[fmt.Sprintf("%x", OutID(data))] = len(data)
-			if s.Op == "put" {
-				if err := putFull(dir, s.Key, data); err != nil {
-					fmt.Fprintf(&sb, "%s: Put failed: %v\n", desc, err)
-				}
-				intact[s.Key] = data
-				hashParts = append(hashParts, "put", itoa(s.Size))
-			} else {
-				k := s.K
-				if k >= s.Size {
-					k = s.Size - 1
-				}
-				if k < 0 {
-					k = 0
-				}
-				r, err := runProc("", []string{"GOMAXPROCS=1"}, bin("putter"), "-dir", dir, "-key", s.Key, "-ver", itoa(s.Ver), "-len", itoa(s.Size),
-					"-chunk", itoa(s.Chunk), "-killat", itoa(k))
-				if err != nil {
-					res.infra = "putter: " + err.Error()
-					return
-				}
-				switch {
-				case r.Killed:
-					// the index entry and data file of an intact entry are not
-					// touched by a store that dies in its copy pass
-				case r.RC == 0 && strings.HasPrefix(r.Out, "DONE "):
-					intact[s.Key] = data
-				default:
-					fmt.Fprintf(&sb, "%s: Put failed without being killed: rc=%d %s%s\n", desc, r.RC, r.Out, r.Err)
-				}
-				hashParts = append(hashParts, "crash", itoa(s.Size), offClass(k, s.Size))
-			}
-		case "trunc", "remove", "agetrim":
-			fs := entryFiles(listCache(dir))
-			if len(fs) == 0 {
-				hashParts = append(hashParts, s.Op, "nofile")
-				break
-			}
-			f := fs[s.File%len(fs)]
-			path := filepath.Join(dir, f.Rel)
-			kind := f.Rel[len(f.Rel)-1:]
-			for _, k := range fileOwner(path) {
-				delete(intact, k)
-			}
-			switch s.Op {
-			case "trunc":
-				l := int(f.Size) * s.Frac / 1000
-				if int64(l) == f.Size { // empty file
-					break
-				}
-				if err := os.Truncate(path, int64(l)); err != nil {
-					res.infra = err.Error()
-					return
-				}
-				hashParts = append(hashParts, "trunc", kind, offClass(l, int(f.Size)))
-			case "remove":
-				os.Remove(path)
-				hashParts = append(hashParts, "remove", kind)
-			case "agetrim":
-				old := time.Now().Add(-6 * 24 * time.Hour)
-				os.Chtimes(path, old, old)
-				os.Remove(filepath.Join(dir, "trim.txt"))
-				c, err := cache.Open(dir)
-				if err != nil {
-					res.infra = err.Error()
-					return
-				}
-				c.Trim()
-				if _, err := os.Stat(path); err == nil {
-					fmt.Fprintf(&sb, "%s: Trim (no trim.txt) kept %s although its mtime is 6 days old\n", desc, f.Rel)
-				}
-				if now := entryFiles(listCache(dir)); len(now) != len(fs)-1 {
-					fmt.Fprintf(&sb, "%s: Trim removed more than the one aged file: before %s after %s\n", desc, listingString(fs), listingString(now))
-				}
-				hashParts = append(hashParts, "agetrim", kind)
-			}
-		}
-		dmg := scanDamage(dir, known)
-		if dmg.any() {
-			anyDamage = true
-			for _, c := range damageClasses(dmg) {
-				ev.Count("seq_"+c, 1)
-			}
-		}
-		state := listingString(entryFiles(listCache(dir)))
-		c, err := cache.Open(dir)
-		if err != nil {
-			res.infra = err.Error()
-			return
-		}
-		for _, k := range seqKeys {
-			var must [][]byte
-			if d, ok := intact[k]; ok {
-				must = [][]byte{d}
-			}
-			if m := verdict(lookupWith(c, k), k, acceptable[k], must); m != "" {
-				fmt.Fprintf(&sb, "after %s: %sentry files: %s\n", desc, m, state)
-			}
-		}
-		if sb.Len() > 0 {
-			break
-		}
-	}
-	res.msg = sb.String()
-	res.nontrivial = anyDamage
-	res.hash = ev.Hash(append([]string{"seq"}, hashParts...)...)
-	res.classes = []string{"seq"}
-	return
-}
-
-func TestFaultSequences(t *testing.T) {
-	defer timed("TestFaultSequences")()
-	ev.Rule(rule)
-	dir, err := newCacheDir()
-	if err != nil {
-		ev.Infra("%v", err)
-		return
-	}
-	defer os.RemoveAll(dir)
-	scaled(float64(ev.EnvInt("C05_SEQ_SCALE", 5, 6)), 4, func() {
-		over := localBudget("SEQ", 15, 300)
-		ev.Check(t, "TestFaultSequences", func(rt *rapid.T) {
-			if over() {
-				return
-			}
-			sc := genSeq(rt)
-			rep := Replay{Kind: "seq", Seq: &sc}
-			ev.Begin("TestFaultSequences", "json", rep.bytes())
-			resetCacheDir(dir)
-			res := evalSeqIn(dir, sc)
-			if res.infra != "" {
-				ev.Infra("TestFaultSequences: %s", res.infra)
-				rt.Skip(res.infra)
-			}
-			ev.Case(res.hash, res.nontrivial, res.classes...)
-			if res.msg != "" {
-				ev.Failf(rt, "TestFaultSequences", "%s", res.msg)
-			}
-		})
-	})
-}
-
-var _ = bytes.Equal
